@@ -42,7 +42,20 @@ def rule_of(why):
 def scopes_of(model, ref_items):
     """[(scope name, statement list, reference items)]"""
     out = [('global', model['statements'], ref_items)]
-    funcs = [it for it in ref_items if it[0] == 'func']
+    def collect(items):
+        found = []
+        for it in items:
+            if it[0] == 'func':
+                found.append(it)
+            elif it[0] == 'if':
+                for _lid, body in it[1]:
+                    found += collect(body)
+                if it[2]:
+                    found += collect(it[2])
+            elif it[0] in ('while', 'for'):
+                found += collect(it[2])
+        return found
+    funcs = collect(ref_items)
     fstmts = [s for s in model['statements'] if isinstance(s, dict) and 'function' in s]
     if len(funcs) != len(fstmts):
         raise Mismatch('function statements', f'{len(funcs)} function definitions in the source, {len(fstmts)} function statements in the global list')
@@ -135,6 +148,8 @@ def run_shape(chk, pm, items, desc, wrap=None):
         ref = sh.emit_block([('func', items, True), B], 0)
     elif wrap == 'sibling':
         ref = sh.emit_block([('if', [[B]], None), ('while', [B])] + items, 0)
+    elif wrap == 'function-in-block':
+        ref = sh.emit_block([('while', [B, ('if', [[('func', items, False), B]], None)])], 0)
     else:
         ref = sh.emit_block(items, 0)
     src = '\n'.join(sh.src)
@@ -282,6 +297,8 @@ def jobs_for(tier):
     for ix, item in enumerate(shapes):
         for wrap in (None, 'function', 'sibling') if (ix % 7 == 0 or tier == 'thorough' or ix < 60) else (None, 'function' if ix % 2 else 'sibling'):
             jobs.append((ix, wrap))
+        if ix % 5 == 0 or tier == 'thorough':
+            jobs.append((ix, 'function-in-block'))       # a function defined inside open global blocks: its loops must not see the enclosing records
     return shapes, jobs
 
 
